@@ -136,6 +136,8 @@ package httpgen
 //@   loop 1 invariant forall k int :: 0 <= k && k < _i1 ==> r.PathValue(params[k].URLParam) != ""
 //@ emitted func bindQueryParams(r *nethttp.Request, msg proto.Message, params []QueryParamConfig) (verr *sebufhttp.ValidationError)
 //@   modifies *
+//@   ensures accepted_means_required_present: verr == nil ==> (forall k int :: 0 <= k && k < len(params) && params[k].Required ==> len(r.URL.Query()[params[k].QueryName]) > 0)
+//@   loop 1 invariant forall k int :: 0 <= k && k < _i1 && params[k].Required ==> len(query[params[k].QueryName]) > 0
 //@   at-call reflect.Set requires converted_value: count("convertStringToFieldValue") > old(count("convertStringToFieldValue")) && lastErrNil("convertStringToFieldValue") && arg1 == lastRetAs("convertStringToFieldValue", protoreflect.Value)
 //@   at-call reflect.Append requires converted_value: count("convertStringToFieldValue") > old(count("convertStringToFieldValue")) && lastErrNil("convertStringToFieldValue") && arg0 == lastRetAs("convertStringToFieldValue", protoreflect.Value)
 //@ emitted func bindDataBasedOnContentType(r *nethttp.Request, toBind any) (err error)
@@ -402,4 +404,14 @@ package httpgen
 //@   at-call json.Marshal requires array_of_elements: isType(arg0, []json.RawMessage) && (forall k int :: 0 <= k && k < len(asType(arg0, []json.RawMessage)) ==> true) && len(asType(arg0, []json.RawMessage)) == len(x.Items)
 //@   loop 1 invariant len(items) == _i1 && count("protojson.Marshal") == old(count("protojson.Marshal")) + _i1
 //@   ensures every_element_encoded: x != nil && err == nil ==> count("protojson.Marshal") == old(count("protojson.Marshal")) + len(x.Items) && count("json.Marshal") == old(count("json.Marshal")) + 1
+
+// the decoder of the same message (C04/C11): the whole body must be one JSON array (anything else, trailing bytes
+// included, is an error); every element is decoded, in order, by the strict protojson decoder into a new Note
+//@ emitted func (x *NoteList) UnmarshalJSON(data []byte) (err error)
+//@   requires x != nil
+//@   modifies *
+//@   ensures not_one_array_is_an_error: !jsonDecodes(data, []json.RawMessage) ==> err != nil
+//@   at-call protojson.Unmarshal requires element_in_order: jsonDecodes(data, []json.RawMessage) && 0 <= _i1 && _i1 < len(jsonDecoded(data, []json.RawMessage)) && arg0 == jsonDecoded(data, []json.RawMessage)[_i1]
+//@   ensures every_element_decoded: err == nil ==> len(x.Items) == len(jsonDecoded(data, []json.RawMessage)) && count("protojson.Unmarshal") == old(count("protojson.Unmarshal")) + len(x.Items)
+//@   loop 1 invariant len(x.Items) == _i1 && count("protojson.Unmarshal") == old(count("protojson.Unmarshal")) + _i1
 
